@@ -102,6 +102,11 @@ class Inliner(object):
                                                              isinstance(f.value, ast.Name)):
           hit = True
           break
+      elif isinstance(x, ast.If):
+        names = [y for y in ast.walk(x.test) if isinstance(y, ast.Name)]
+        if names and isinstance(x.test, (ast.Name, ast.UnaryOp, ast.BoolOp)):
+          hit = True         # possibly a flag test (see _subst_flags)
+          break
     if not hit:
       return None
     tree = copy.deepcopy(module.tree)
@@ -141,7 +146,8 @@ class Inliner(object):
     finally:
       self._cur_locals = outer if outer is not None else set()
     if inlined:
-      node._inlined_from = sorted(set(inlined) | set(getattr(node, '_inlined_from', ())))
+      node._inlined_from = sorted((set(inlined) | set(getattr(node, '_inlined_from', ()))) - {'<flag>'})
+      node._normalised = True
       _check_bound(node, fi)
     return bool(inlined) or bool(getattr(node, '_nested_changed', False))
 
@@ -159,6 +165,8 @@ class Inliner(object):
     out = []
     for s in stmts:
       out.extend(self._stmt(s, fn, stack, inlined, depth))
+    if _subst_flags(out):
+      inlined.append('<flag>')
     return out
 
   def _stmt(self, s, fn, stack, inlined, depth):
@@ -175,7 +183,7 @@ class Inliner(object):
           finally:
             self._cur_locals = outer
           if sub:
-            s._inlined_from = sorted(set(sub))
+            s._inlined_from = sorted(set(sub) - {'<flag>'})
             inlined.extend(sub)
       return [s]
     # recurse into compound statements first
@@ -441,6 +449,51 @@ def _check_bound(defnode, fi):
   for x in ast.walk(defnode):
     if isinstance(x, ast.Name) and isinstance(x.ctx, ast.Load) and re.search(r'__(i|ret)\d+$', x.id) and x.id not in bound:
       raise AnalysisError('inliner produced an unbound name %s in %s' % (x.id, fi.key))
+
+
+FLAG_CALLS = {'len', 'isinstance', 'bool', 'callable', 'hasattr'}
+
+
+def _pure_test(e):
+  """a boolean-valued expression without side effects that may be evaluated a second time."""
+  for x in ast.walk(e):
+    if isinstance(x, (ast.Name, ast.Constant, ast.Attribute, ast.Compare, ast.BoolOp, ast.UnaryOp, ast.expr_context, ast.boolop,
+                      ast.cmpop, ast.unaryop, ast.Tuple)):
+      continue
+    if isinstance(x, ast.Call) and isinstance(x.func, ast.Name) and x.func.id in FLAG_CALLS and not x.keywords:
+      continue
+    return False
+  return isinstance(e, (ast.Compare, ast.BoolOp)) or (isinstance(e, ast.UnaryOp) and isinstance(e.op, ast.Not))
+
+
+def _subst_flags(block):
+  """flag = <test>            if <test>: ...
+     if flag: ...        ==>
+  for a flag assigned in the statement just before the ``if`` that tests it (nothing can change the operands in
+  between).  The assignment stays; only the test is rewritten, so that path rules see the real condition."""
+  changed = False
+  for i in range(len(block) - 1):
+    d, u = block[i], block[i + 1]
+    if not (isinstance(d, ast.Assign) and len(d.targets) == 1 and isinstance(d.targets[0], ast.Name) and _pure_test(d.value)):
+      continue
+    if not isinstance(u, (ast.If,)):
+      continue
+    name = d.targets[0].id
+    if any(isinstance(x, ast.Name) and x.id == name for x in ast.walk(d.value)):
+      continue
+    uses = [x for x in ast.walk(u.test) if isinstance(x, ast.Name) and x.id == name and isinstance(x.ctx, ast.Load)]
+    if not uses:
+      continue
+
+    class S(ast.NodeTransformer):
+      def visit_Name(self, n):
+        if n.id == name and isinstance(n.ctx, ast.Load):
+          return ast.copy_location(_clone(d.value), n)
+        return n
+    u.test = S().visit(u.test)
+    ast.fix_missing_locations(u)
+    changed = True
+  return changed
 
 
 def _locals_of(defnode):
